@@ -173,6 +173,8 @@ fn gen_history(tape: Vec<u8>) -> HistCase {
 
 fn judge_history(c: &HistCase, cls: &mut Classifier) -> Verdict {
     let mut scratch = Classifier::default();
+    // prelude (result ignored): replaces whatever a single-slot memo holds from an earlier case on this thread
+    let _ = catch(|| EthereumMessage(&b"prelude"[..]).signing_message().0);
     for (i, s) in c.steps.iter().enumerate() {
         judge(s, &mut scratch).map_err(|mut e| {
             e.note = format!("step {i} of a history of {} related messages digested one after the other on one thread: {}", c.steps.len(), e.note);
